@@ -274,6 +274,7 @@ class World:
         self.clock = SimClock() if clock else None
         self._patched = []
         self.scratch = None
+        self.scratch_suffix = [" dir", "-\u00e9\u00f6", "", "", ""][rng_init % 5]
 
     def __enter__(self):
         self.rng.install()
@@ -299,7 +300,8 @@ class World:
     def make_scratch(self) -> str:
         if self.scratch is None:
             base = os.environ.get("VERIF_SCRATCH") or None
-            self.scratch = tempfile.mkdtemp(prefix="molgri-sim-", dir=base)
+            # awkward but legal directory names (space, non-ASCII) are part of what a stage may be handed
+            self.scratch = tempfile.mkdtemp(prefix="molgri-sim-", suffix=self.scratch_suffix, dir=base)
         return self.scratch
 
     def __exit__(self, *exc):
